@@ -7,5 +7,5 @@ import (
 )
 
 func TestSim(t *testing.T) {
-	simrun.Main(t, map[string]simrun.World{"C09": World("C09"), "C12": WorldC12()})
+	simrun.Main(t, map[string]simrun.World{"C09": World("C09"), "C11": WorldC11(), "C12": WorldC12()})
 }
